@@ -577,7 +577,7 @@ func planC16(prop string, seed uint64, tier string, idx int) *Plan {
 		switch g.r.intn(17) {
 		case 16:
 			ti := trav[g.r.intn(len(trav))]
-			g.add(Op{K: "man", Repo: repo, Obj: ti, Tag: "trav", CT: g.r.str("own", "none")})
+			g.add(Op{K: "man", Repo: repo, Obj: ti, Tag: "trav", CT: g.r.str(mtOCIIndex, "none")})
 			g.add(Op{K: "get", Mode: "tag", Repo: repo, Tag: "trav", Accept: g.r.str("other", "all")})
 		case 0, 1, 2:
 			b := blobs[g.r.intn(len(blobs))]
